@@ -48,7 +48,7 @@ def oracle_refine(before, after, info):
                 and all(x == y for x, y in zip(before.faces, after.faces))
                 and before.edges == after.edges)
         if not same or ops:
-            bad.append("a pass changed a mesh that already satisfies the length band (swap off): %d operations" % len(ops))
+            bad.append("a pass changed a mesh that already satisfies the length band%s: %d operations" % (" and the triangle-quality rule (every true score >= 0.2, swap on)" if info.get("swap") else " (swap off)", len(ops)))
     if info["swap"] == 0 and ops and all(o[0] == "s" for o in ops):
         v0, v1 = RC.signed_volume6(before), RC.signed_volume6(after)
         a0, a1 = RC.total_area(before), RC.total_area(after)
